@@ -1,6 +1,5 @@
 use std::ffi::{c_int, c_void};
-use libc::{socklen_t, timeval};
-use crate::syscall::get_time_limit;
+use libc::socklen_t;
 use crate::syscall::unix::{RECV_TIME_LIMIT, SEND_TIME_LIMIT};
 
 trait SetsockoptSyscall {
@@ -41,10 +40,11 @@ impl<I: SetsockoptSyscall> SetsockoptSyscall for NioSetsockoptSyscall<I> {
     ) -> c_int {
         let r= self.inner.setsockopt(fn_ptr, socket, level, name, value, option_len);
         if 0 == r && libc::SOL_SOCKET == level {
+            // forget the cached limit, the next hooked call reads back what the kernel stored
             if libc::SO_SNDTIMEO == name {
-                assert!(SEND_TIME_LIMIT.insert(socket, get_time_limit(unsafe { &*value.cast::<timeval>() })).is_none());
+                _ = SEND_TIME_LIMIT.remove(&socket);
             } else if libc::SO_RCVTIMEO == name {
-                assert!(RECV_TIME_LIMIT.insert(socket, get_time_limit(unsafe { &*value.cast::<timeval>() })).is_none());
+                _ = RECV_TIME_LIMIT.remove(&socket);
             }
         }
         r
